@@ -78,6 +78,12 @@ TEMPLATES = [
     T("iso_T_ms_comma", "ms", lambda d: "%s-%02d-%02dT%02d:%02d:%02d,%03d" % (
         Y(d), d.month, d.day, d.hour, d.minute, d.second,
         d.microsecond // 1000)),
+    # label-style time first, packed date last
+    T("hms_words_compact_date", "s",
+      lambda d: "%02dh%02dm%02ds %s%02d%02d" % (
+          d.hour, d.minute, d.second, Y(d), d.month, d.day)),
+    T("hm_colon_iso_date", "min", lambda d: "%02d:%02d %s-%02d-%02d" % (
+        d.hour, d.minute, Y(d), d.month, d.day)),
     # fractions of one, two, four and five digits
     T("iso_sp_f1", "f1", lambda d: "%s-%02d-%02d %02d:%02d:%02d.%01d" % (
         Y(d), d.month, d.day, d.hour, d.minute, d.second,
